@@ -45,3 +45,27 @@ impl RecordHeader {
     #[verifier::external_body]
     pub fn same_key(&self, other: &RecordHeader) -> (r: bool) ensures r == (self.key@ == other.key@) { unimplemented!() }
 }
+
+// the index file as a ghost byte sequence; a positioned read returns exactly the requested range or fails
+#[verifier::external_body]
+pub struct IdxFile { _p: u8 }
+impl IdxFile {
+    pub uninterp spec fn content(&self) -> Seq<u8>;
+    // File::read_exact_at(buf, offset) (+ into_bincode_if_unexpected_eof, context)
+    #[verifier::external_body]
+    pub fn read_exact_at(&self, buf: Vec<u8>, offset: u64) -> (r: Result<Vec<u8>, VErr>)
+        ensures r.is_ok() ==> offset + buf@.len() <= self.content().len()
+            && r->Ok_0@ == self.content().subrange(offset as int, offset + buf@.len())
+    { unimplemented!() }
+    #[verifier::external_body]
+    pub fn size(&self) -> (r: u64) ensures r == self.content().len() { unimplemented!() }
+}
+// BytesMut::zeroed(n)
+#[verifier::external_body]
+pub fn zeroed(n: usize) -> (r: Vec<u8>) ensures r@.len() == n { unimplemented!() }
+// deserialisation of a header looks only at its own rhs bytes
+#[verifier::external_body]
+pub proof fn axiom_hdr_at_local(buf: Seq<u8>, off: int, rhs: int)
+    requires 0 <= off, off + rhs <= buf.len(), rhs >= 0
+    ensures hdr_at(buf, off, rhs) == hdr_at(buf.subrange(off, off + rhs), 0, rhs)
+{ }
